@@ -142,7 +142,7 @@ Proof.
   rewrite (rne_eq_compat _ _ Hsf).
   assert (E1 : Qltb tol (Qabs' (s / sel (g_spac g) j - inject_Z (Z.abs k))) = false).
   { apply Qltb_false_le. rewrite Qabs'_zero by lra. lra. }
-  rewrite E1.
+  rewrite E1. replace (Z.abs k =? 0) with false by lia. cbn [orb].
   assert (D : (dot u (sel (g_unit g) j) == sgn k)%Q).
   { rewrite (dot_scaled u _ _ _ Hu), (Ho j j), ax_eqb_refl. ring. }
   destruct (sgn_cases k) as [[Hs1 Hk1]|[Hs1 Hk1]].
@@ -335,7 +335,7 @@ Lemma steps_of_err : forall tol g h e, steps_of tol g h = Err e ->
 Proof.
   assert (A : forall tol g u s e, axis_step tol g u s = Err e -> e = RT).
   { intros tol g u s e. unfold axis_step. destruct (find_axis tol g u); [|intros H; now inversion H].
-    destruct (Qltb tol _); intros H; now inversion H. }
+    destruct (_ || Qltb tol _); intros H; now inversion H. }
   intros tol g h e H. unfold steps_of in H.
   destruct (axis_step tol g (sel (g_unit h) X0) _) as [[j0 s0]|e0] eqn:E0.
   2:{ cbn [bind] in H. inversion H; subst. pose proof (A _ _ _ _ _ E0); subst. split; [reflexivity|]. now exists X0. }
@@ -433,13 +433,17 @@ Theorem axis_step_refuses_iff : forall tol g u s,
   axis_step tol g u s = Err RT <->
   find_axis tol g u = None \/
   exists j, find_axis tol g u = Some j /\
-            (tol < Qabs' (s / sel (g_spac g) j - inject_Z (rne (s / sel (g_spac g) j))))%Q.
+            (rne (s / sel (g_spac g) j) = 0 \/
+             (tol < Qabs' (s / sel (g_spac g) j - inject_Z (rne (s / sel (g_spac g) j))))%Q).
 Proof.
   intros tol g u s. unfold axis_step. destruct (find_axis tol g u) as [j|].
-  - destruct (Qltb tol _) eqn:E.
-    + split; [|reflexivity]. intros _. right. exists j. split; [reflexivity|]. now apply Qltb_true_lt.
-    + split; [discriminate|]. intros [H|(j' & H & Hlt)]; [discriminate|]. inversion H; subst.
-      apply Qltb_true_lt in Hlt. congruence.
+  - destruct (rne (s / sel (g_spac g) j) =? 0) eqn:E0; cbn [orb].
+    + apply Z.eqb_eq in E0. split; [|reflexivity]. intros _. right. exists j. split; [reflexivity|now left].
+    + apply Z.eqb_neq in E0. destruct (Qltb tol _) eqn:E.
+      * split; [|reflexivity]. intros _. right. exists j. split; [reflexivity|]. right. now apply Qltb_true_lt.
+      * split; [discriminate|]. intros [H|(j' & H & [Hz|Hlt])]; [discriminate| |]; inversion H; subst.
+        -- contradiction.
+        -- apply Qltb_true_lt in Hlt. congruence.
   - split; [tauto|reflexivity].
 Qed.
 
